@@ -427,6 +427,29 @@ def run(chk):
          'the scanner no longer reports a closing bracket that matches '
          'nothing', fi=tv.fi)
 
+  # an unmatched OPENER is reported only because nothing parses: each of the
+  # bracketed forms is accepted only when the text between its first and last
+  # bracket is whole (IsWhole) - on every way to a successful return
+  for q in ('parse.ParseGenericCall', 'parse.ParseRecord', 'parse.ParseList'):
+    w = FnView(repo, q)
+    n_ret = 0
+    bad = None
+    for n, r in w.returns():
+      if r.value is None or (isinstance(r.value, ast.Constant) and r.value.value is None):
+        continue
+      n_ret += 1
+      whole = [e for e, val in w.guards(n) if val and isinstance(e, ast.Call) and
+               call_tail(e) == 'IsWhole']
+      if not whole:
+        bad = r
+    if not n_ret:
+      raise AnalysisError('%s: no successful return recognised' % q)
+    chk.ob('C19-R1', bad is None, None,
+           '%s accepts only when IsWhole(inner text) holds' % q.split('.')[-1],
+           'a successful return is reachable without IsWhole having held: a call / '
+           'record / list whose inner text has a bracket that is never closed (`R((x)`) '
+           'is accepted and compiled instead of being reported', fi=w.fi, node=bad)
+
   chk.rule('C19-R2', 'wiring: validators are must-calls of the entry points '
            'and every detection site is reachable from ParseFile / '
            'LogicaProgram.__init__ / FormattedPredicateSql', min_instances=18)
